@@ -665,6 +665,28 @@ def range_contains(m, st, inst, args, t):
     return m.binop(st, "BitAnd", a, b)
 
 
+@prim("std::intrinsics::raw_eq")
+def raw_eq(m, st, inst, args, t):
+    a, b = args
+    if a[0] != "ptr" or b[0] != "ptr":
+        raise Unanalysable("raw_eq on %s,%s" % (a[0], b[0]))
+    tid = inst["args"][0] if inst["args"] and isinstance(inst["args"][0], int) else None
+    va = m.read_loc(st, a[1], tid)
+    vb = m.read_loc(st, b[1], tid)
+    return values_equal(m, st, va, vb)
+
+
+def values_equal(m, st, va, vb):
+    if va[0] == "agg" and vb[0] == "agg" and len(va[1]) == len(vb[1]):
+        for x, y in zip(va[1], vb[1]):
+            r = values_equal(m, st, x, y)
+            if r == FALSE:
+                return FALSE
+        return TRUE
+    r = m.concretize(st, m.binop(st, "Eq", va, vb))
+    return mk_bool(r[1] != 0)
+
+
 # ---- atomics / statics / cpu features ----------------------------------------------------------
 @prim("std_detect::detect::arch::x86::__is_feature_detected::avx2", "std_detect::detect::arch::x86::__is_feature_detected::sse4_2",
       "std_detect::detect::arch::x86::__is_feature_detected::sse2", "std_detect::detect::arch::x86::__is_feature_detected::avx",
